@@ -34,6 +34,26 @@ func genVar(t *rapid.T) VarCase {
 		}
 	}
 
+	// a definition whose default level is none of its levels is inconsistent (a library may well
+	// refuse it): a variant that brings its own levels names its default among them, and the other
+	// way round
+	has := map[string]bool{}
+	for _, s := range c.Sections {
+		has[s] = true
+	}
+
+	if has["privilege-levels"] != has["default-desired-privilege-level"] {
+		var out []string
+
+		for _, s := range allSections {
+			if has[s] || s == "privilege-levels" || s == "default-desired-privilege-level" {
+				out = append(out, s)
+			}
+		}
+
+		c.Sections = out
+	}
+
 	return c
 }
 
